@@ -17,7 +17,8 @@ CLAIMED = {
                      "Also: the scanner's end-of-input mark (CIF_EOF) is returned by no scan/parse function other than the refill functions (flow-sensitive may-return analysis), and the closing-delimiter run counter of triple-quoted strings is reset by every other character. "
                      "Also: the two bracket arms of scan_unquoted decide from the same variables. "
                      "Also (round 6): the character-source accounting rule of C08 (every character read is added to the window; a read ending in CR is remembered from the data as read) is reported here too. "
-                     "Also shared from C08: no local derived from the scan window is read after a refill without being re-derived.",
+                     "Also shared from C08: no local derived from the scan window is read after a refill without being re-derived. "
+                     "Also (round 7) shared from C08: the character source marks itself drained only where the converter consumed all buffered bytes.",
                 note=TB + "; the grammar table transcribed in cifsa/rules/c01.py",
                 tech="constant-table reconstruction from AST stores + switch/case-label dispatch analysis on CFGs; may-return value analysis (A1) iterated over the call graph; run-counter reset reachability"),
     "C02": dict(level="other", ref="5 C02",
@@ -29,7 +30,8 @@ CLAIMED = {
                      "Also (text fields and layout): every logical line of a folded/prefixed text field gets its line terminator, a protected line its empty continuation line; the prefix/refusal decision depends on a leading semicolon and the fold decision on the prefix length; %S precisions are counted in UChar units; no local copy of last_column is used after output moved the column. "
                      "Also: range tests on surrogates cut exactly at the class boundaries; the tracked column advances by what each counted emission wrote. "
                      "Also (round 6): a text field is written only where allow_text holds, in either CIF version. "
-                     "Also: the literal characters a format puts on the line of a name fit in what the name validator leaves of the line (or that arm is chosen under a length test that makes room); the analyser's delimiter-evidence rule of C18 is reported here too.",
+                     "Also: the literal characters a format puts on the line of a name fit in what the name validator leaves of the line (or that arm is chosen under a length test that makes room); the analyser's delimiter-evidence rule of C18 is reported here too. "
+                     "Also (round 7): the fold decision is true for a first line of exactly the line length (it shares its line with the opening semicolon); the reserved-word recogniser agrees with next_token (shared from C18).",
                 note=TB + "; ICU u_fprintf/u_fputc return conventions (count written / character written)",
                 tech="table agreement + emission/accounting typestate dataflow + who-may-call on the call graph; inter-procedural linear substitution of call arguments; per-iteration must-pass-through with branch facts; dependence closure incl. control dependence; staleness may-dataflow; units of printf precisions; boundary-table check of relational comparisons; format-string accounting"),
     "C03": dict(level="other", ref="5 C03",
@@ -42,7 +44,8 @@ CLAIMED = {
                      "Also: no parser function returns the scanner's private CIF_EOF mark (a defined result code is returned). "
                      "Also: index variables of signed type into fixed-size tables are non-negative by construction or tested. "
                      "Also (round 6): a table entry claiming a code is tolerated by a case label is verified against the switch (landing block equals that of CIF_OK). "
-                     "Also shared from sibling checks as necessary conditions: no stale window pointer after a refill (C08 R1), every production's token switch names all value-starting kinds (C01 R2), an unterminated token at end of input keeps its tail (C12 R6).",
+                     "Also shared from sibling checks as necessary conditions: no stale window pointer after a refill (C08 R1), every production's token switch names all value-starting kinds (C01 R2), an unterminated token at end of input keeps its tail (C12 R6). "
+                     "Also (round 7): a character source that returns a negative count has stored an error code on that path; ownership typestate over the parser units (recovery arms included).",
                 note=TB + "; flow-insensitive may-return-code summaries (over-approximate); the cannot-occur table was triaged by reading "
                      "each call site; 5 genuine defects are recorded as known findings",
                 tech="verdict-propagation typestate dataflow + may-return-code summaries over the call graph; natural-loop read/write analysis; may-return value analysis (A1) over the call graph; reaching-definition sign analysis of index variables"),
@@ -56,7 +59,8 @@ CLAIMED = {
                      "Also: every decision 'this category is the scalar category' answers no for a NULL category (three-valued evaluation of the controlling expression, or dominance by a non-NULL test). "
                      "Also: the look-up by code of a table whose creation has a lenient (non-validating) mode normalises its key without validating. "
                      "Also (round 6): cif_is_valid_name counts code points and accepts names up to exactly the documented limits (shared with C09). "
-                     "Also: the transaction-balance rule of C05 over the modifying API functions.",
+                     "Also: the transaction-balance rule of C05 over the modifying API functions. "
+                     "Also (round 7): in cif_loop_set_category both refusals of the reserved category hold on every path to a store of the new category.",
                 note=TB + "; SQLite (python3 sqlite3 module) as parser of the embedded SQL; a light tokenizer maps ?-parameters to columns",
                 tech="static analysis of embedded SQL + bind/column site join + must-bind dataflow; three-valued evaluation of branch conditions"),
     "C05": dict(level="proof", ref="5 C05",
@@ -75,7 +79,8 @@ CLAIMED = {
                      "bookkeeping stores precede success exits, savepoints paired, users close what they open. Necessary conditions "
                      "of the property; once-only delivery of packets depends on SQL row grouping at run time and is not decided. "
                      "Also: no HASH_ITER body writes the iteration's look-ahead variable. "
-                     "Also shared: every statement reference to loop / loop_item / item_value is tied to a container (C04 R5); names are validated by the normaliser of their own kind (C09 R6).",
+                     "Also shared: every statement reference to loop / loop_item / item_value is tied to a container (C04 R5); names are validated by the normaliser of their own kind (C09 R6). "
+                     "Also (round 7): every decision whether a loop is the scalar loop answers no for a NULL category (shared from C04).",
                 note=TB + "; SQLite transaction/savepoint semantics",
                 tech="typestate dataflow + dominance / must-pass-through queries on clang CFGs; loop-body write sets for uthash iterations"),
     "C07": dict(level="other", ref="5 C07",
@@ -87,7 +92,8 @@ CLAIMED = {
                      "Also: serialiser and deserialiser agree on which field each string position holds; the sign of a number (not stored) is recomputed from the text. "
                      "Also: cif_buf_write copies only where the capacity is known to cover position + len (must-fact established by the growth loop's exit test). "
                      "Also (round 6): every uthash insertion files the value under u_strlen(key) * sizeof(UChar) of the very key stored (shared with C09 / C19). "
-                     "Also: the text of a character value does not reach sqlite3_bind_text16 unexamined (SQLite's byte-order-mark handling and U+FFFE/U+FFFF replacement alter it: 3 known findings); the storing functions are transaction-balanced (C05's rule).",
+                     "Also: the text of a character value does not reach sqlite3_bind_text16 unexamined (SQLite's byte-order-mark handling and U+FFFE/U+FFFF replacement alter it: 3 known findings); the storing functions are transaction-balanced (C05's rule). "
+                     "Also (round 7): per function using SET_VALUE_PROPS, every bind is evaluated whenever its kind's arm is, or bindings are cleared unconditionally between executions.",
                 note=TB + "; SQLite as parser of the embedded SQL; 3 genuine defects (character text altered by SQLite's UTF-16 handling) are recorded as known findings",
                 tech="writer/reader table extraction from macro expansions in the AST + agreement checks; loop-carried-state analysis + last-store mod-set summaries over the call graph; positional field correspondence through locals; must-fact dataflow on relational facts"),
     "C08": dict(level="other", ref="5 C08",
@@ -100,7 +106,8 @@ CLAIMED = {
                      "Also: per-character scan state is not reset on the refill path; every character delivered by the character source is accounted in buffer_limit; a CR ending a read is remembered in the scanner. "
                      "Also: the byte-to-character source is marked drained only on paths where the converter status excludes U_BUFFER_OVERFLOW_ERROR. "
                      "Also: after get_more_chars moved kept data, tvalue_start / next_char are re-based with distances measured on the old window. "
-                     "Also (round 6): after an initial CR only UCHAR_NL completes the terminator.",
+                     "Also (round 6): after an initial CR only UCHAR_NL completes the terminator. "
+                     "Also (round 7): memcpy / memmove sizes of wide objects are built with sizeof; u_memcpy / u_memmove count UChars.",
                 note=TB + "; functions that may refill = transitive callers of get_more_chars within parser.c",
                 tech="staleness may-dataflow + must-pass-through / pairing queries on CFGs; loop nesting + upward-exposed-use analysis; guard-edge reachability from the conversion call"),
     "C09": dict(level="other", ref="5 C09",
@@ -112,7 +119,8 @@ CLAIMED = {
                      "Also: data names are (re-)validated by the data-name normaliser and codes by the code normaliser, decided from the tables each function's statements touch. "
                      "Also: range tests on code units cut exactly at the boundaries of the surrogate and non-character classes. "
                      "Also (round 6): the name length limit is counted in code points, inclusive. "
-                     "Also shared from C07: serialiser and deserialiser of a table entry agree on the order key / original spelling.",
+                     "Also shared from C07: serialiser and deserialiser of a table entry agree on the order key / original spelling. "
+                     "Also (round 7): for each of U+0001..U+0020 and U+007F one of the character predicates of cif_is_valid_name answers yes (evaluated over their CFGs); an expression holding normaliser output is not handed to a validating name parameter.",
                 note=TB + "; SQLite as parser of the embedded SQL; frozen already-normalised parameter table (DESIGN.md A.3)",
                 tech="who-may-reach / must-pass-through over call graph and bind sites + call-order check; statement-table domain inference per function; boundary-table check of relational comparisons"),
     "C10": dict(level="other", ref="5 C10",
@@ -132,7 +140,8 @@ CLAIMED = {
                      "The comparison polarity rule: a '!= 0' test ('no magic code of any version') compares only the version-independent prefix. "
                      "Also: every expansion of the per-character validation macro reports U+FEFF as CIF_DISALLOWED_CHAR in both dialects (a BOM is accepted only as the first character). "
                      "Also: the encoding name of a detected Unicode signature is overwritten only where it was found NULL. "
-                     "Also (round 6): the named default encoding is used where documented; prefer_cif2 reaches the scanner on every path without a version comment; not_utf8 depends on the converter name alone.",
+                     "Also (round 6): the named default encoding is used where documented; prefer_cif2 reaches the scanner on every path without a version comment; not_utf8 depends on the converter name alone. "
+                     "Also (round 7): the byte source is marked at end of file only on paths that have read from it.",
                 note=TB,
                 tech="constant-table agreement + guard-edge dominance on the CFG; comparison-polarity check; conditional constant propagation of the validation macro over its CFG for chosen code units; guard-edge reachability from the detection call"),
     "C12": dict(level="other", ref="5 C12",
@@ -145,7 +154,8 @@ CLAIMED = {
                      "Also: the per-character validation macro reports exactly the non-character code units among chosen probes; no BACK_UP is reachable from an end-of-input outcome without a character scanned in between. "
                      "Also: range tests of the scanner cut at class boundaries; a rewind of the scan position to the token start resets the column; copies of the token length are not used after the token was shortened. "
                      "Also (round 6): the case label of a code the recovery rules tolerate (CIF_NULL_LOOP after accepted duplicate names) lands in the arm of CIF_OK (shared with C03 R2b). "
-                     "Also: an array filled only for the elements that pass a test is not subscripted by an index run against the count of all elements (the partial-packet recovery decides per column); between the CIF_PARTIAL_PACKET report and the first read of the column variable it is not advanced.",
+                     "Also: an array filled only for the elements that pass a test is not subscripted by an index run against the count of all elements (the partial-packet recovery decides per column); between the CIF_PARTIAL_PACKET report and the first read of the column variable it is not advanced. "
+                     "Also (round 7): the line counter advances only under a test of the end-of-line class.",
                 note=TB + "; the recovery table in parser.c's documentation comment is the oracle for actions",
                 tech="table agreement + must/may token-consumption queries on CFGs; must-fact dataflow for column/terminator accounting; conditional constant propagation over a macro expansion; fact-consistent reachability"),
     "C13": dict(level="other", ref="5 C13",
@@ -157,7 +167,8 @@ CLAIMED = {
                      "Also the text-field body rules shared with C02 (line terminators, protected lines, leading semicolon, prefix length in the fold decision). "
                      "Also: the tracked column advances by what each counted emission wrote (delimiters included). "
                      "Also (round 6): a refusal by the CIF 1.1 validator inside a loop over names is not overwritten by a later name's acceptance; a text field is written only where one is allowed, in either version. "
-                     "Also: the name-line budget rule of C02.",
+                     "Also: the name-line budget rule of C02. "
+                     "Also (round 7): the first-line budget rule of C02.",
                 note=TB + "; write_context_t.version is constant during a write (checked: stored only by cif_write); one named "
                      "exemption: text of unquoted numbers",
                 tech="typestate dataflow (validated-set) + forwarder summaries + guard dominance + table agreement; monotone-update check; per-iteration must-pass-through with branch facts"),
@@ -169,9 +180,10 @@ CLAIMED = {
                      "released on every path. That the SQL enumerations yield each element once is not decided. "
                      "Also: a child's SKIP_CURRENT is followed by the same callback sites as its CONTINUE. "
                      "Also: with any subset of handlers absent cif_walk returns no directive. "
-                     "Also shared from C06: the packet iterator opened by walk_loop is closed or aborted exactly once on every path.",
+                     "Also shared from C06: the packet iterator opened by walk_loop is closed or aborted exactly once on every path. "
+                     "Also (round 7): a test of whether a handler is installed controls that handler's call only; after a child's SKIP_SIBLINGS the parent's end callback is still made (4 known findings: the walker omits it at every level).",
                 note=TB + "; a child walk is assumed to return any answer class (each helper is checked under that assumption); absent "
-                     "handlers are outside the property",
+                     "handlers are outside the property; 4 genuine deviations (end callback of the parent omitted after a child's SKIP_SIBLINGS) are recorded as known findings",
                 tech="finite-domain abstract interpretation (exhaustive) + must-pass-through release checks; answer-indexed reachability sets"),
     "C15": dict(level="other", ref="5 C15",
                 text="Context-sensitive abstract interpretation of the parser productions over the skip depth (interval domain; contexts "
@@ -181,7 +193,8 @@ CLAIMED = {
                      "contract; depth stores have the directive-driven form. Document order and callback arguments are not decided. "
                      "Also: no bookkeeping variable that decides an error report is assigned only under one outcome of a skip_depth test (skipping does not alter syntax checking). "
                      "Also: no production returns SKIP_CURRENT / SKIP_SIBLINGS received from a handler (may-return analysis); syntax-error callbacks with a literal code are reached with or without a target CIF. "
-                     "Also (round 6): directive scope - entered at depth 0, a production returns at depth 1 exactly when the last depth store on the path answered SKIP_SIBLINGS from a handler of its own element (ghost state: last handler, last store, selecting directive); parse_loop_packets' depth contract is now analysed with the column index followed as first / later.",
+                     "Also (round 6): directive scope - entered at depth 0, a production returns at depth 1 exactly when the last depth store on the path answered SKIP_SIBLINGS from a handler of its own element (ghost state: last handler, last store, selecting directive); parse_loop_packets' depth contract is now analysed with the column index followed as first / later. "
+                     "Also (round 7): no storing call is reached with a NULL handle in any context of the interpretation.",
                 note=TB + "; handlers cannot modify the scanner; the own-element table of the five productions (c15.OWN_HANDLERS) is part of the rule",
                 tech="context-sensitive interval abstract interpretation over clang CFGs (assume-guarantee contracts per production); edge-dominance non-interference check; A1 may-return value analysis with handler calls as sources; path-sensitive ghost state (last handler / last depth store / selecting directive) in the same interpretation"),
     "C16": dict(level="other", ref="5 C16",
@@ -194,7 +207,8 @@ CLAIMED = {
                      "Also: key/key_orig aliasing discipline at every free; allocation extent vs constant-offset index; realloc growth increment >= 1 (interval evaluation); exclusive-end guards; no pointer field freed while the kind that owns it stays set; a stored `capacity` equals the element count of the block allocated for the same object. "
                      "Also: all setlocale calls of the save/switch/restore protocol use one category; every allocation that can be the last before a capacity store agrees with it; no HASH_ITER body writes the look-ahead variable. "
                      "Also (round 6): signed index variables into fixed-size tables have a lower bound (shared with C03 R6). "
-                     "Also: the compacted-array rule of C12 (elements past the ones written are uninitialised).",
+                     "Also: the compacted-array rule of C12 (elements past the ones written are uninitialised). "
+                     "Also (round 7): no storing call on a NULL handle; no release of a pointer that was never set; a block stored into a live object's field is not freed afterwards; a destination value is cleaned only after the source was read; wide copy sizes in bytes.",
                 note=TB + "; frozen allocator table (own.ALLOC_OUT, 44 entries), 4 named exemptions (DESERIALIZE macro family, parse_table's "
                      "dead allocating arm); linked-list / hash / array elements are outside the alias model; the defects once "
                      "recorded as known findings for this property have all been repaired",
@@ -207,7 +221,8 @@ CLAIMED = {
                      "transaction open. SQLite's/ICU's own OOM behaviour and 'the same call succeeds when repeated' are not decided. "
                      "Also: after v->kind = K no failure path frees K's fields and returns with the kind still set. "
                      "Further structural rules: a fresh handle reaches its release function only with every field that function reads assigned (R9); failure handlers reached from a uthash insertion that ran out of memory do not walk the table (R10, six known findings: uthash 1.9.9 cannot be unwound); `*out` is re-assigned after its referent was released (R11); a callee's CIF_MEMORY_ERROR is never re-labelled (R8); no `p = realloc(p, n)` (R7); the DESERIALIZE family releases fields before the shell (R6); `*_clean` helpers leave the counters of a released block at 0 (R13). "
-                     "Also shared from C16: every allocation that can be the last before a capacity store agrees with it.",
+                     "Also shared from C16: every allocation that can be the last before a capacity store agrees with it. "
+                     "Also (round 7): no release of an unset pointer on the failure path of the callee that would have set it; a failure indicator comes with its code; not freed after transfer.",
                 note=TB + "; may-return-code summaries decide which callees can report memory failure",
                 tech="must-fact dataflow per allocation site + dropped-failure typestate + ownership typestate on OOM paths; kind/field release ordering on CFGs"),
     "C18": dict(level="other", ref="5 C18",
@@ -228,12 +243,14 @@ CLAIMED = {
                      "always ends in kind = CIF_UNK_KIND; list/table accessors test kind and index (with the right comparison) "
                      "before touching members and return the documented codes; the list grows before a slot beyond its capacity is "
                      "written. Structural equality of clones and map semantics under key variants are not decided. "
-                     "Also: realloc growth increment >= 1; replacing or releasing one of an entry's key/key_orig never frees the allocation the other still uses; `*_clean` helpers reset the pointers they free and the counters that bound the freed block.",
+                     "Also: realloc growth increment >= 1; replacing or releasing one of an entry's key/key_orig never frees the allocation the other still uses; `*_clean` helpers reset the pointers they free and the counters that bound the freed block. "
+                     "Also (round 7): only insertion, removal, tear-down and builders of fresh lists write a list's element slots (a set copies onto the existing element); a destination value is cleaned only after the source was read.",
                 note=TB + "; 3 documented ownership-transfer exemptions (init_char text, parse_numb text, create_norm names)",
                 tech="escape (no-alias) analysis with interprocedural summaries + must-call-before / guard dominance on CFGs; interval evaluation; alias-pair free discipline"),
     "C20": dict(level="proof", ref="5 C20",
                 text="Exhaustive comparison of the finite set of result-code macros of cif.h with the positional cif_errlist "
-                     "initialiser and cif_nerr, read from the AST; complete for this property.",
+                     "initialiser and cif_nerr, read from the AST; complete for this property. "
+                     "Also (round 7): code literals are read with C's radix rules (a leading 0 is octal); a code not defined by a literal is analysis-broken.",
                 note="clang's preprocessor/AST; the frozen per-code stem table is the oracle for 'describes that very condition'",
                 tech="constant-table extraction from the AST + exhaustive table agreement"),
 }
